@@ -198,12 +198,13 @@ def probe():
         shutil.rmtree(d, ignore_errors=True)
 
 
-def strace_count(tool_args, paths, timeout=300):
+def strace_count(tool_args, paths, timeout=300, hashseed="0"):
     """counting run of the real tool: -> (run result, ordered events [(call, path)])"""
     d = tempfile.mkdtemp(prefix="verif-")
     try:
         tr = os.path.join(d, "trace")
-        r = run(strace_argv([TOOL] + list(tool_args), paths, None, None, out=tr), timeout=timeout)
+        r = run(strace_argv([TOOL] + list(tool_args), paths, None, None, out=tr), timeout=timeout,
+                env=user_env(hashseed))
         text = open(tr).read() if os.path.exists(tr) else ""
         return r, parse_trace(text, paths)
     finally:
@@ -212,20 +213,21 @@ def strace_count(tool_args, paths, timeout=300):
         shutil.rmtree(d, ignore_errors=True)
 
 
-def strace_kill(tool_args, paths, call, k, sig, timeout=300):
+def strace_kill(tool_args, paths, call, k, sig, timeout=300, hashseed="0"):
     d = tempfile.mkdtemp(prefix="verif-")
     try:
         log = os.path.join(d, "log")
         return run(strace_argv([TOOL] + list(tool_args), paths, call, (call, k, SIGNALS[sig]), out=log),
-                   timeout=timeout, watch=log)
+                   timeout=timeout, watch=log, env=user_env(hashseed))
     finally:
         import shutil
 
         shutil.rmtree(d, ignore_errors=True)
 
 
-def plain(tool_args, timeout=300):
-    return run([TOOL] + list(tool_args), timeout=timeout)
+def plain(tool_args, timeout=300, hashseed="0"):
+    """hashseed: str-hash salt of the interpreter (PYTHONHASHSEED); None = random, as a user has it"""
+    return run([TOOL] + list(tool_args), timeout=timeout, env=user_env(hashseed))
 
 
 # ------------------------------------------------------------------ separate interpreter processes
@@ -266,6 +268,9 @@ def in_fork(fn, timeout=120):
         code = 3
         try:
             os.close(r)
+            nul = os.open(os.devnull, os.O_WRONLY)      # native readers log to fd 1 / 2
+            os.dup2(nul, 1)
+            os.dup2(nul, 2)
             signal.signal(signal.SIGALRM, signal.SIG_DFL)
             signal.alarm(int(timeout))
             try:
@@ -300,18 +305,94 @@ def in_fork(fn, timeout=120):
     return tuple(out)
 
 
+def _died(q, seq):
+    return dict(viol=[[dict(what="history_interpreter_" + q[0]),
+                       "history %r: the interpreter %s (%s)" % (seq, q[0], q[1])]], obs=[q[0]])
+
+
+def explore_histories(seqs, child, run_case):
+    """seqs: list of call sequences (json-able lists); child(seq) -> dict(viol=[[tags, detail]], obs=[..])
+    runs one history against the library and judges it.
+
+    All histories of `seqs` are run one after the other in ONE forked child (state at its start: 'just
+    imported', provided the parent never calls the library).  A violation is always reported with a case
+    that replays EXACTLY what was executed:
+      dict(kind="history", calls=seq)          the history alone, in its own forked child - used for the
+                                               first violation of each signature, after re-running the
+                                               history alone and seeing the same signature again;
+      dict(run_case, kind="history_run", upto=k)   histories 0..k of the same run, in one forked child -
+                                               for every other violation, and for those that need what the
+                                               earlier histories of the run left behind.
+    If the interpreter dies or hangs anywhere in the run, every history is run in its own child instead.
+    -> (violations, per-history results, forks)"""
+    from . import core
+
+    forks = 1
+    r = in_fork(lambda: [child(s) for s in seqs], timeout=900)
+    if r[0] == "raised":
+        raise core.HarnessError("history child: %s" % r[1])
+    isolated = r[0] != "ok"
+    if isolated:
+        results = []
+        for s in seqs:
+            q = in_fork(lambda: child(s), timeout=60)
+            forks += 1
+            if q[0] == "raised":
+                raise core.HarnessError("history child: %s" % q[1])
+            results.append(q[1] if q[0] == "ok" else _died(q, s))
+    else:
+        results = r[1]
+    viol, seen = [], set()
+    for k, (s, res) in enumerate(zip(seqs, results)):
+        for tags, detail in res["viol"]:
+            h = core.sig_hash(tags)
+            short = isolated
+            if not isolated and h not in seen:
+                seen.add(h)
+                q = in_fork(lambda: child(s), timeout=60)
+                forks += 1
+                short = q[0] == "ok" and any(core.sig_hash(t) == h for t, _ in q[1]["viol"])
+            if short:
+                case = dict(kind="history", calls=s)
+            else:
+                case = dict(run_case, kind="history_run", upto=k)
+                detail = "[history %d of a run of %d histories in one interpreter] %s" % (k + 1, len(seqs), detail)
+            viol.append(core.violation(tags, detail, case))
+    return viol, results, forks
+
+
+def replay_history(case, seqs_of, child):
+    """case as produced by explore_histories; seqs_of(case) -> the run's list of sequences"""
+    from . import core
+
+    if case["kind"] == "history":
+        seq = case["calls"]
+        q = in_fork(lambda: child(seq), timeout=60)
+        res = q[1] if q[0] == "ok" else None
+    else:
+        seqs = seqs_of(case)[:case["upto"] + 1]
+        seq = seqs[-1]
+        q = in_fork(lambda: [child(s) for s in seqs], timeout=900)
+        res = q[1][-1] if q[0] == "ok" else None
+    if q[0] == "raised":
+        raise core.HarnessError("history child: %s" % q[1])
+    if res is None:
+        res = _died(q, seq)
+    return [core.violation(t, d, case) for t, d in res["viol"]]
+
+
 # ------------------------------------------------------------------ python-level fallback
 
 PY_POINTS = ("before_save", "after_save", "after_print")
 
 
-def py_count(tool_args, timeout=300):
+def py_count(tool_args, timeout=300, hashseed="0"):
     """-> (run result, events [(point, path)]) with the driver in counting mode"""
     d = tempfile.mkdtemp(prefix="verif-")
     try:
         log = os.path.join(d, "log")
         r = run([PY, os.path.abspath(__file__), "--driver", "count", "0", "KILL", log, "--"]
-                + list(tool_args), timeout=timeout)
+                + list(tool_args), timeout=timeout, env=user_env(hashseed))
         ev = []
         if os.path.exists(log):
             for line in open(log):
@@ -324,9 +405,9 @@ def py_count(tool_args, timeout=300):
         shutil.rmtree(d, ignore_errors=True)
 
 
-def py_kill(tool_args, point, k, sig, timeout=300):
+def py_kill(tool_args, point, k, sig, timeout=300, hashseed="0"):
     return run([PY, os.path.abspath(__file__), "--driver", point, str(int(k)), sig, "-", "--"]
-               + list(tool_args), timeout=timeout)
+               + list(tool_args), timeout=timeout, env=user_env(hashseed))
 
 
 def _driver(argv):
@@ -368,8 +449,67 @@ def _driver(argv):
     sys.exit(cl.signals_to_torch_feat_dir(args))
 
 
+def tool_batch(jobs, hashseed, salt, timeout=600):
+    """jobs: [dict(tool="kaldi"|"torch", args=[...])].  All jobs are run one after the other by the
+    tools' own entry functions inside ONE fresh interpreter whose str-hash salt is `hashseed` (None =
+    random, as a user has it).  Before every job the global numpy / torch generators are left in a state
+    that depends on (salt, job index), so that only --seed can make two interpreters agree.
+    -> (run result, [["ok", rc] | ["exit", code] | ["exc", type, text]] or None)"""
+    import json
+
+    d = tempfile.mkdtemp(prefix="verif-")
+    try:
+        jf, rf = os.path.join(d, "jobs.json"), os.path.join(d, "results.json")
+        with open(jf, "w") as f:
+            json.dump(jobs, f)
+        r = run([PY, os.path.abspath(__file__), "--tool-batch", jf, rf, str(int(salt))],
+                timeout=timeout, env=user_env(hashseed))
+        res = None
+        if os.path.exists(rf):
+            with open(rf) as f:
+                res = json.load(f)
+        return r, res
+    finally:
+        import shutil
+
+        shutil.rmtree(d, ignore_errors=True)
+
+
+def _tool_batch(argv):
+    import json
+    import logging
+
+    import numpy as np
+    import torch
+
+    import pydrobert.speech.command_line as cl
+
+    with open(argv[0]) as f:
+        jobs = json.load(f)
+    salt = int(argv[2])
+    torch.set_num_threads(1)
+    out = []
+    for k, job in enumerate(jobs):
+        np.random.seed(100003 * salt + k)
+        torch.manual_seed(100003 * salt + k + 50000)
+        fn = cl.compute_feats_from_kaldi_tables if job["tool"] == "kaldi" else cl.signals_to_torch_feat_dir
+        try:
+            out.append(["ok", fn(list(job["args"]))])
+        except SystemExit as e:
+            out.append(["exit", e.code if isinstance(e.code, (int, type(None))) else str(e.code)])
+        except Exception as e:
+            out.append(["exc", type(e).__name__, str(e)[:300]])
+        lg = logging.getLogger(sys.argv[0])
+        for h in list(lg.handlers):      # the tools add one stream handler per call
+            lg.removeHandler(h)
+    with open(argv[1], "w") as f:
+        json.dump(out, f)
+
+
 if __name__ == "__main__":
     if len(sys.argv) > 1 and sys.argv[1] == "--driver":
         _driver(sys.argv[2:])
+    elif len(sys.argv) > 1 and sys.argv[1] == "--tool-batch":
+        _tool_batch(sys.argv[2:])
     else:
         print(probe())
